@@ -40,9 +40,13 @@ def main():
         rc, out = sh("/venv/bin/python -m pytest -q -p no:cacheprovider 2>&1 | tail -1", cwd=wt, env=env)
         result["repo_tests_with_patch"] = out.strip()
         rc1, _ = sh(f"/venv/bin/python {demo}", cwd=wt, env=env)
-        sh("git stash -q", cwd=wt)
+        # (not `git stash`: the stash is shared by all worktrees of a repository, so parallel runs would swap patches)
+        sh(f"git apply -R {patch}", cwd=wt)
         rc0, _ = sh(f"/venv/bin/python {demo}", cwd=wt, env=env)
-        sh("git stash pop -q", cwd=wt)
+        rc_re, out_re = sh(f"git apply {patch}", cwd=wt)
+        if rc_re:
+            print("PATCH COULD NOT BE RE-APPLIED\n" + out_re)
+            return 3
         result["demo_exit_with_patch"] = rc1
         result["demo_exit_without_patch"] = rc0
         head = sh("git rev-parse --short HEAD", cwd="/repo")[1].strip()
